@@ -1,6 +1,6 @@
 CONSTANTS
-  MaxFrames = 2
-  Lens = {3, 5}
+  MaxFrames = 4
+  Lens = {3}
   H = 3
   Preface = 0
   Peek = 0
